@@ -48,6 +48,7 @@ def funcParams (id : String) : Option (List K) :=
   | "obsC" => some [.int64]
   | "inj" => some []
   | "injS" => some []
+  | "bump" => some []
   | "cat" => some [.string, .string]
   | "boom" => some []
   | "sum3" => some [.int8, .uint16, .float32]
@@ -84,6 +85,11 @@ def applyFunc (id : String) (args : List Val) (env : Env) : Option (Val × Env) 
   | "injS", [] =>
     -- the host injects the name `ls` (once): a pointer to a fresh struct
     some (.nil, if (env.lookupBase "ls").isSome then env else env.setBase "ls" (.struct true hostZeroFields))
+  | "bump", [] =>
+    -- a function with a side effect the host sees: increments the pointer-injected p_int64 and returns it
+    (match env.lookupBase "p_int64" with
+     | some (.pscalar (.i k x)) => some (.i .int64 (x + 1), env.setBase "p_int64" (.pscalar (.i k (x + 1))))
+     | _ => none)
   | "cat", [.s a, .s b] => some (.s (a ++ b), env)
   | "boom", [] => none
   | "neg", [.b x] => some (.b (!x), env)
@@ -146,6 +152,21 @@ def execMethod (env : Env) (name : String) (args : List Val) : Res Val × Env :=
      | none => match env.lookupVar a with
         | some _ => (.err none, env)
         | none => (.err none, env))
+  | _ => (.err none, env)
+
+/-- DataContext.ExecThreeLevel: `S.Sub.Mark(x)` on the pointer-injected struct records an event. -/
+def execThree (env : Env) (name : String) (args : List Val) : Res Val × Env :=
+  match splitDots name with
+  | [a, b, m] =>
+    (match env.lookupBase a with
+     | some (.struct true _) =>
+       if b == "Sub" && m == "Mark" then
+         (match prepArgs [.int64] args with
+          | some [v] => (.ok .nil, { env with trace := ("mark", [v]) :: env.trace })
+          | _ => (.panic, env))
+       else (.err none, env)
+     | some _ => (.err none, env)
+     | none => (.err none, env))
   | _ => (.err none, env)
 
 /-! ### expressions -/
@@ -249,7 +270,7 @@ def finishCall (P : Params) (kind : CallKind) (line : Nat) (name : String) (r : 
     let r2 := match kind with
       | .func => execFunc env1 name vs
       | .method => execMethod env1 name vs
-      | .three => (.err none, env1)
+      | .three => execThree env1 name vs
     match r2 with
     | (.ok v, env2) => (.ok v, env2)
     | (.err _, env2) => (.err (some line), env2)
